@@ -63,9 +63,22 @@ type store struct {
 	created string
 	getOK   bool // the last Get returned an intact stored value
 	getSid  string
+	// keepsSlice: the store keeps the byte slice it is handed instead of copying it (a map-backed
+	// store does exactly that)
+	keepsSlice bool
+	// overlap, when set, is run once inside the next Get: another user's complete request is served
+	// while this request waits for its session look-up
+	overlap func()
+	nested  bool
 }
 
 func (s *store) New(w http.ResponseWriter, r *http.Request, k string, v []byte) error {
+	if s.nested {
+		// the overlapping request of the other user: stored, not tracked
+		s.n++
+		s.m[fmt.Sprintf("bg-%d", s.n)] = &sess{val: append([]byte{}, v...), creator: -1}
+		return nil
+	}
 	s.newCall = true
 	if s.fault == "new-error" {
 		s.fired["store-new-error"]++
@@ -73,13 +86,26 @@ func (s *store) New(w http.ResponseWriter, r *http.Request, k string, v []byte) 
 	}
 	s.n++
 	sid := fmt.Sprintf("sid-%d-%x", s.n, core.NewRng(uint64(s.n)*7919).U64())
-	s.m[sid] = &sess{val: append([]byte{}, v...), creator: s.cur}
+	if s.keepsSlice {
+		s.m[sid] = &sess{val: v, creator: s.cur}
+	} else {
+		s.m[sid] = &sess{val: append([]byte{}, v...), creator: s.cur}
+	}
 	s.created = sid
 	http.SetCookie(w, &http.Cookie{Name: "sim_session", Value: sid})
 	return nil
 }
 
 func (s *store) Get(r *http.Request, k string) ([]byte, error) {
+	if s.nested {
+		return nil, nil
+	}
+	if s.overlap != nil {
+		f := s.overlap
+		s.overlap, s.nested = nil, true
+		f()
+		s.nested = false
+	}
 	s.getOK = false
 	c, err := r.Cookie("sim_session")
 	if err != nil {
@@ -168,7 +194,7 @@ func run(tapeJSON json.RawMessage, res *core.Result) {
 	}
 	var ss *store
 	if tp.SessionMgr {
-		ss = &store{m: map[string]*sess{}, fired: map[string]int{}}
+		ss = &store{m: map[string]*sess{}, fired: map[string]int{}, keepsSlice: tp.StoreKeepsSlice}
 		opts = append(opts, service.SessionManager(ss))
 	}
 	innerRan := false
@@ -293,6 +319,27 @@ func run(tapeJSON json.RawMessage, res *core.Result) {
 				}
 				ss.fault, ss.cur, ss.newCall, ss.created, ss.getOK = rq.StoreFault, i, false, "", false
 				o.StoreErr = rq.StoreFault
+				if rq.Overlap {
+					// while this request waits in the session look-up another user, at another address,
+					// with a valid ticket bound to that address, is served from start to end
+					ss.overlap = func() {
+						bs := baseSpec(etypes[0])
+						bs.Client, bs.Addrs = "bguser", "other"
+						btr, err := minter.Mint(bs, time.Now().UTC().Truncate(time.Second), skew, rng)
+						if err != nil {
+							return
+						}
+						breq := httptest.NewRequest("GET", "http://host.sim.test/other", nil)
+						breq.RemoteAddr = "10.9.9.9:5000"
+						breq.Header.Set("Authorization", "Negotiate "+base64.StdEncoding.EncodeToString(rk.NegTokenInit([][]int{rk.OIDKRB5}, rk.KRB5Token(rk.TokAPReq, btr.Bytes))))
+						sr, su, sd, sa := innerRan, ctxUser, ctxDomain, ctxAuthed
+						engine.Guard(func() { handler.ServeHTTP(httptest.NewRecorder(), breq) })
+						if innerRan && !sr {
+							res.Probes["overlapping-request-served"]++
+						}
+						innerRan, ctxUser, ctxDomain, ctxAuthed = sr, su, sd, sa
+					}
+				}
 			}
 			rec := httptest.NewRecorder()
 			innerRan, ctxUser, ctxDomain, ctxAuthed = false, "", "", false
